@@ -64,6 +64,27 @@ def digest(x) -> str:
     return h.hexdigest()
 
 
+def frame() -> dict:
+    """Process-wide settings a library call has no business changing (extended behaviour, X01 only)."""
+    import decimal  # noqa: PLC0415
+    import os  # noqa: PLC0415
+    import random  # noqa: PLC0415
+    import warnings  # noqa: PLC0415
+
+    import pandas as pd  # noqa: PLC0415
+
+    f = {"numpy errstate": repr(sorted(np.geterr().items())), "numpy print options": repr(sorted(np.get_printoptions().items())),
+         "numpy random state": hashlib.sha1(np.random.get_state()[1].tobytes()).hexdigest(), "random state": hashlib.sha1(repr(random.getstate()).encode()).hexdigest(),
+         "decimal precision": decimal.getcontext().prec, "recursion limit": sys.getrecursionlimit(), "working directory": os.getcwd(),
+         "switch interval": sys.getswitchinterval(), "warning filters": len(warnings.filters),
+         "pandas options": repr([pd.get_option(o) for o in ("mode.copy_on_write", "display.precision", "mode.chained_assignment")])}
+    if "matplotlib" in sys.modules:
+        import matplotlib as mpl  # noqa: PLC0415
+
+        f["matplotlib rcParams"] = hashlib.sha1(repr(sorted((k, repr(v)) for k, v in mpl.rcParams.items())).encode()).hexdigest()
+    return f
+
+
 def _call(thunk):
     try:
         return thunk(), None
@@ -72,11 +93,18 @@ def _call(thunk):
 
 
 def stress(ctx: core.Ctx, label: str, tasks: list, *, nthreads: int = 4, rounds: int = 1, tid: int = 1,
-           clause_prefix: str = "Reentrant") -> dict:
+           clause_prefix: str = "Reentrant", check_frame: bool = False) -> dict:
     """Run `tasks` [(name, thunk), ...] alone and then concurrently; judge with ReentrantTrace.tla. Returns statistics."""
     ref, kept, unstable, raises_alone = {}, [], [], []
     for i, (name, thunk) in enumerate(tasks, start=1):
+        f0 = frame() if check_frame else None
         a, ea = _call(thunk)
+        if check_frame:
+            f1 = frame()
+            for k in f0:
+                if f0[k] != f1.get(k):
+                    ctx.violation("Frame", f"{label}: task '{name}' changed a process-wide setting: {k} was {f0[k]!r:.80}, is {f1.get(k)!r:.80}",
+                                  replay={"stage": "threads", "label": label, "task": name})
         b, eb = _call(thunk)
         da, db = digest(a), digest(b)
         if da != db or ea != eb:
@@ -173,7 +201,7 @@ def replay(ctx: core.Ctx, obj: dict) -> None:
     clause(ctx, [r["label"]], rounds=6)
 
 
-def clause(ctx: core.Ctx, groups: list[str], *, nthreads: int | None = None, rounds: int | None = None) -> None:
+def clause(ctx: core.Ctx, groups: list[str], *, nthreads: int | None = None, rounds: int | None = None, check_frame: bool = False) -> None:
     """The re-entrancy clause of a property check: design-level runs of Reentrant.tla, then the named task groups of
     drivers/threadtasks.py run from several threads and judged by ReentrantTrace.tla."""
     from . import threadtasks  # noqa: PLC0415
@@ -183,7 +211,8 @@ def clause(ctx: core.Ctx, groups: list[str], *, nthreads: int | None = None, rou
     for k, g in enumerate(groups):
         rng = np.random.default_rng([ctx.seed, 4242, k])
         tasks = getattr(threadtasks, g)(rng)
-        st = stress(ctx, g, tasks, nthreads=nthreads or (4 if ctx.quick else 8), rounds=rounds or (1 if ctx.quick else 4), tid=900 + k)
+        st = stress(ctx, g, tasks, nthreads=nthreads or (4 if ctx.quick else 8), rounds=rounds or (1 if ctx.quick else 4), tid=900 + k,
+                    check_frame=check_frame)
         for name, _ in tasks:
             ctx.case(f"threads/{g}/{name}")
         if st["raises_alone"]:
